@@ -157,6 +157,31 @@ Proof.
     exact (IH ND sid reached tgt Hin).
 Qed.
 
+Lemma presolve_all_in : forall dirs incs sid q,
+  In (sid, q) (presolve_all rd dirs incs) ->
+  exists s, In (sid, s) incs /\ presolve rd s dirs = Some q.
+Proof.
+  induction incs as [|[s0 s] r IH]; intros sid q H; [contradiction|]. cbn [presolve_all] in H.
+  destruct (presolve rd s dirs) as [q0|] eqn:E.
+  - destruct H as [H|H].
+    + injection H as <- <-. exists s. split; [left; reflexivity|exact E].
+    + destruct (IH _ _ H) as [s1 [A B]]. exists s1. split; [right; exact A|exact B].
+  - destruct (IH _ _ H) as [s1 [A B]]. exists s1. split; [right; exact A|exact B].
+Qed.
+
+Lemma list_includes_in : forall (its : list item) sid (s : istr),
+  In (sid, s) (list_includes its) ->
+  exists reached lr, In (IInc sid reached (Some (s, lr))) its.
+Proof.
+  induction its as [|it r IH]; intros sid s H; [contradiction|].
+  destruct it as [s0 re [[s1 lr]|]|nm]; cbn [list_includes] in H.
+  - destruct H as [H|H].
+    + injection H as <- <-. exists re, lr. left. reflexivity.
+    + destruct (IH _ _ H) as [re' [lr' A]]. exists re', lr'. right. exact A.
+  - destruct (IH _ _ H) as [re' [lr' A]]. exists re', lr'. right. exact A.
+  - destruct (IH _ _ H) as [re' [lr' A]]. exists re', lr'. right. exact A.
+Qed.
+
 (** ** id level: a map related to [presolve_all] *)
 Variable fs : fsys.
 
